@@ -222,18 +222,23 @@ def binding_demo(rep, cases):
     rep.notes.append(f"binding demo: pristine trace ACCEPT; corrupted d[3] -> {v[2][1]}, corrupted z[2] -> {v[3][1]}, float z off by 3e-6 -> {v[4][1]}")
 
 
-def m_stiff(trace, clause):
-    """known finding C01-F1: lambda / largest weight >= 1e6, positive weights confined to <= n/2 of the series"""
+def m_illcond(trace, clause):
+    """known finding C01-F1: ill-conditioned normal equations, kappa_est >= 1e10 (exact evaluation)"""
     if clause != "Float64Within1e-6" or trace.get("op") != "float":
         return False
     w = [Fraction(s) for s in trace["w"]]
-    pos = [i for i, v in enumerate(w) if v > 0]
-    return Fraction(trace["lam"]) >= 10**6 * max(w) and (pos[-1] - pos[0] + 1) * 2 <= len(w)
+    n = len(w)
+    sw = sum(w)
+    mu0 = sw / n
+    tw = sum(wi * i for i, wi in enumerate(w)) / sw
+    tbar = Fraction(n - 1, 2)
+    mu1 = sum(wi * (i - tw) ** 2 for i, wi in enumerate(w)) / sum((i - tbar) ** 2 for i in range(n))
+    return 16 * Fraction(trace["lam"]) >= 10**10 * min(mu0, mu1)
 
 
 def run(tier, seed):
     rep = core.Report("C01", tier, seed)
-    rep.matchers["c01_stiff_extrapolation"] = m_stiff
+    rep.matchers["c01_ill_conditioned"] = m_illcond
     model_check(rep, tier)
     cases = [execute(c) for c in gen_cases(tier, seed)]
     binding_demo(rep, cases)
